@@ -302,6 +302,7 @@ func (r *wgRun) probe() (string, error) {
 	if err := guard(func() error { db = NoKV.Open(openOpts(img)); return nil }); err != nil {
 		return "", fmt.Errorf("reopen of crash image: %v", err)
 	}
+	imgIDs := corr.ListN(walIDs(img))
 	var kvs []string
 	for k := uint64(0); k < wgKeys; k++ {
 		e, err := db.Get(keyBytes(k))
@@ -334,7 +335,7 @@ func (r *wgRun) probe() (string, error) {
 	if cerr != nil {
 		return "", fmt.Errorf("close of image DB: %v", cerr)
 	}
-	return fmt.Sprintf("(Some (Pr %s %s))", corr.List(kvs), corr.List(rs)), nil
+	return fmt.Sprintf("(Some (Pr %s %s %s))", imgIDs, corr.List(kvs), corr.List(rs)), nil
 }
 
 func (r *wgRun) ptrs() string {
@@ -603,7 +604,7 @@ func runWalgc(c *corr.Ctx) error {
 			return err
 		}
 	}
-	n := c.Scale(120, 3000)
+	n := c.Scale(60, 1500)
 	for i := 0; i < n; i++ {
 		if err := emitOps(genHistory(c)); err != nil {
 			return err
